@@ -246,6 +246,41 @@ def _create(cfg):
     co, _ = run_client([root, "-chs", "-dp=%d" % d, "-wp=%d" % (w + 1), "-ap=%s" % a, "-nsp=%s" % ns])
     if co == "ok":
         errs.append("client re-creates an existing store with a different width")
+    # create and use in ONE invocation: the store options (-ap, -nsp) and the verb's options (-algo, -formatid) are
+    # different things although they look alike; both argument orders
+    create = ["-chs", "-dp=%d" % d, "-wp=%d" % w, "-ap=%s" % a, "-nsp=%s" % ns]
+    other_algo = "MD5" if a != "MD5" else "SHA-1"
+    for label, verb in (("storemetadata -formatid", ["-storemetadata", "-pid=P", "-path=" + INP["doc2"], "-formatid=fmt2"]),
+                        ("storeobject -algo", ["-storeobject", "-pid=P", "-path=" + INP["obj2"], "-algo=" + other_algo])):
+        for order in ("store options first", "verb options first"):
+            shutil.rmtree(root, ignore_errors=True)
+            argv = [root] + (create + verb if order == "store options first" else verb + create)
+            co, cout = run_client(argv)
+            what = "create + %s in one call (%s): " % (label, order)
+            if co != "ok":
+                errs.append(what + "client fails (%s)" % co)
+                continue
+            try:
+                s = FileHashStore({"store_path": root, "store_depth": d, "store_width": w, "store_algorithm": a,
+                                   "store_metadata_namespace": ns})
+            except Exception as e:  # noqa: BLE001
+                errs.append(what + "the API refuses the store with the -chs values (%s)" % type(e).__name__)
+                continue
+            try:
+                if verb[0] == "-storemetadata":
+                    m = s.retrieve_metadata("P", "fmt2")
+                    ok = m.read() == DOC2
+                    m.close()
+                    if not ok:
+                        errs.append(what + "document under the given format has other bytes")
+                else:
+                    if s.get_hex_digest("P", a) != hashlib.new(STORE_ALGOS[a], OBJ2).hexdigest():
+                        errs.append(what + "object not stored under the store algorithm")
+                    if hashlib.new(STORE_ALGOS[other_algo], OBJ2).hexdigest() not in cout:
+                        errs.append(what + "the additional algorithm's digest is not reported")
+            except Exception as e:  # noqa: BLE001
+                errs.append(what + "what the verb stored is not found through the API (%s)" % type(e).__name__)
+    shutil.rmtree(root, ignore_errors=True)
     return [({"kind": "client-create", "what": e}, {"config": list(cfg)}) for e in errs]
 
 
